@@ -40,9 +40,37 @@ def _call(args):
     for item in chunk:
         try:
             out.append(("ok", fn(item, *extra)))
-        except Exception:
-            out.append(("harness_error", traceback.format_exc()))
+        except Exception as e:  # noqa: B902
+            out.append(_classify(e, item))
     return out
+
+
+def _classify(e, item):
+    """An exception that escapes a job.  If its innermost frame is code of the
+    repository (not of /verif) the *code under test* raised where the job did not
+    expect it to: that is behaviour, reported as a violation of the check's property
+    (rule code.raised_unexpectedly, replayable by re-running the work item).  Anything
+    else is a failure of the machinery."""
+    tb = traceback.extract_tb(sys.exc_info()[2])
+    last = tb[-1] if tb else None
+    name = type(e).__name__
+    if last is not None and "/verif/" not in last.filename and name != "HarnessError" \
+            and any("/verif/" in f.filename for f in tb):
+        in_repo = [f for f in tb if "/verif/" not in f.filename
+                   and "/site-packages/" not in f.filename
+                   and "/lib/python" not in f.filename]
+        if in_repo:
+            f = in_repo[-1]
+            where = f"{os.path.basename(f.filename)}:{f.lineno} in {f.name}"
+            return ("ok", {
+                "violations": [{
+                    "rule": "code.raised_unexpectedly",
+                    "msg": f"{name} raised from {where} during work item "
+                           f"{repr(item)[:200]}",
+                    "ident": f"{name}@{where}",
+                    "case": {"raw_item": item},
+                }]})
+    return ("harness_error", traceback.format_exc())
 
 
 def chunks(it, n):
